@@ -101,6 +101,9 @@ struct vb_fstream { int handle; };
 #ifndef VB_WAIT
 #define VB_WAIT(cv, pred) do { if (!(pred)) vb_would_block(); } while (0)
 #endif
+#ifndef VB_WAIT_FOR   /* timed wait: the predicate's value when the wait ends (false = timed out) */
+#define VB_WAIT_FOR(cv, pred) (pred)
+#endif
 void vb_would_block(void);
 #ifndef VB_INIT_mutex
 #define VB_INIT_mutex(m) ((m)->held = 0)
